@@ -749,6 +749,32 @@ func (e outerEval) ShallowCopy() *outerEval {
 	return &outerEval{table: e.table, inner: e.inner}
 }
 
+// NORMUSE control: the sign is decided on the raw exponent
+func shiftSign(k, n int) (int, bool) {
+	shift := ((k % (2 * n)) + 2*n) % (2 * n)
+	return shift % n, k < n
+}
+
+// SIBDEF control: the NTT variant centres by another constant
+func roundHalf(q uint64, x []uint64) {
+	half := (q - 1) >> 1
+	for i := range x {
+		x[i] += half
+	}
+}
+
+func roundHalfNTT(q uint64, x []uint64) {
+	half := (q + 1) >> 1
+	for i := range x {
+		x[i] += half
+	}
+}
+
+// CEILLOG control: the head-room of the sum of nParties masks taken as the floor of log2
+func minLevelFor(logBound uint, nParties int) float64 {
+	return float64(logBound + uint(math.Log2(float64(nParties))))
+}
+
 // INDEG control: the first two components of the input, whatever its degree
 func (e fixEvaluator) SumTwo(ctIn, opOut *rlwe.Ciphertext) {
 	e.r.Add(ctIn.Value[0], ctIn.Value[1], opOut.Value[0])
